@@ -214,6 +214,17 @@ def doEquiv (l : Line) : Option String := do
       let R := (List.zip P gf).mapM fun (p, (bl, br)) => reFromGrid p bl br
       some (showPart P ++ " | " ++ showRes Q ++ " | " ++ showRes R)
 
+/-- The set below the partition: `set.volume`, the n-d cell volumes, `set.corners()` and `index` of every
+corner. -/
+def doSets (l : Line) : Option String := do
+  let P ← l.vpart?
+  let cor := setCorners P
+  let idx := cor.map fun v => match ndIndex P v with
+    | some i => showIntList i
+    | none => "err"
+  some (s!"ok vol={showRat (setVolume P)} cellvols={showRatList (ndCellVolumes P)} " ++
+        s!"corners={showRatMat cor} idx={";".intercalate idx}")
+
 def handle (l : Line) : Option String :=
   match l.op with
   | "props" => doProps l
@@ -229,6 +240,7 @@ def handle (l : Line) : Option String :=
   | "nonuniform" => doNonuniform l
   | "nd" => doNd l
   | "equiv" => doEquiv l
+  | "sets" => doSets l
   | _ => none
 
 def main : IO Unit := driverLoop handle
